@@ -133,9 +133,10 @@ def OneShotFunction(fn, *args, **kwargs):
 
     task = OneShotFunctionTask()
 
-    # if there is no task manager, postpone the install
+    # if there is no task manager, postpone the install, it is due as soon
+    # as there is one
     if not _task_manager:
-        _unscheduled_tasks.append(task)
+        task.install_task(when=0)
     else:
         task.install_task(delta=0)
 
